@@ -436,6 +436,9 @@ theorem gen_correSetupReceiverRound3 : MpsGen.OT.correSetupReceiverRound3 = [
 /-- the statements of the Go function the model transcribes -/
 theorem gen_correSend : MpsGen.OT.correSend = [
     "batchSizeBytes := batchSize >> 3",
+    "if msg == nil {",
+    "return nil, errors.New(\"CorreOTSend: missing message\")",
+    "}",
     "prgKey := make([]byte, 32)",
     "_, _ = ctxHash.Fork(&hash.BytesWithDomain{TheDomain: \"CorreOT PRG Key\", Bytes: nil}).Digest().Read(prgKey)",
     "prg, _ := blake3.NewKeyed(prgKey)",
